@@ -1,6 +1,7 @@
 import MaltModel.Proofs.C10Refine
 import MaltModel.Proofs.C10Progress
 import MaltModel.Props.C20
+import MaltModel.Generated.CacheLock
 /-!
 # C10 — the conversion cache is coherent, converts once, and is thread-safe
 
@@ -21,6 +22,15 @@ proved as a counterexample, and assumed away by a decidable hypothesis on the hi
 * `ValInj` — the cache is a `WeakKeyDictionary` keyed by the code object, whose `__eq__` is
   structural: two distinct code objects with equal value share one entry, which dies with the *first*
   of them (→ a second transformation for a pair that stayed alive, and a `KeyError` race).
+
+What makes a theorem `_partial`, and how far each hypothesis has been lifted:
+
+| theorems | hypothesis | why it cannot be dropped |
+|---|---|---|
+| once, once_kept, error_only, no_error, lock_released, mutex, progress, can_complete | `SchedSafe T (init progs) sched` — *dynamic*: no `gc` step of this schedule removes an entry that an equal-valued distinct code object in use shares (decidable per (history, schedule); implied by `ValInj` for every schedule: `C10_schedSafe_of_valInj`; holds for the usual "old function dies, then the same source is exec'ed again" redefinition although `ValInj` fails there: `exRedefine`) | `C10_once_counterexample`, `C10_no_error_counterexample` |
+| refines (lookup-or-convert spec), no_alias_frame | `ValInj` (static): the spec is keyed by code *identity*, the implementation by *value*; two equal-valued distinct code objects alive at once share an entry even without any `gc` | `C10_result_counterexample_equal_code` |
+| refines_ideal, outcome_ideal (cache-less spec: every request = fresh conversion of that exact function) | `ValInj ∧ SigCoherent` — exactly the negations of the two known findings | `C10_ideal_needs_sigCoherent`, `C10_ideal_needs_valInj` |
+| served, no_alias, no_stale, result (under assumptions on `T`), work monotone | none | — |
 -/
 namespace Malt.Cache
 
@@ -43,8 +53,14 @@ private theorem G_reach (T : Code → Opts → Nat → Option Factory) (progs : 
   G_run (G_init progs (mem_allReqs progs)) sched
 
 private theorem Inv_reach (T : Code → Opts → Nat → Option Factory) (progs : List (List (Request Opts)))
-    (V : ValInj (allReqs progs)) (sched : List Label) : Inv (allReqs progs) (run T (init progs) sched) :=
-  Inv_run V (Inv_init progs (mem_allReqs progs)) sched
+    (sched : List Label) (hs : SchedSafe T (init progs) sched) :
+    Inv (allReqs progs) (run T (init progs) sched) :=
+  Inv_run (Inv_init progs (mem_allReqs progs)) sched hs
+
+/-- The static hypothesis implies the dynamic one, for every schedule. -/
+theorem C10_schedSafe_of_valInj (T : Code → Opts → Nat → Option Factory) (progs : List (List (Request Opts)))
+    (V : ValInj (allReqs progs)) (sched : List Label) : SchedSafe T (init progs) sched :=
+  schedSafe_of_valInj V (Inv_init progs (mem_allReqs progs)) sched
 
 /-- **Coherence, no hypothesis.**  Whatever the history and the schedule, a finished request for
 `(code, options)` was served the conversion under *those* options of the source of some requester's
@@ -95,23 +111,54 @@ theorem C10_result_partial {Fn : Type} (T : Code → Opts → Nat → Option Fac
 /- FULL STATEMENT (false of the pinned tree — `C10_once_counterexample`):
      ∀ T progs sched c o, xcount (run T (init progs) sched) c o ≤ 1 -/
 
-/-- **Converts once**: in a history whose distinct code objects have distinct values, `transform_ast`
-runs at most once per (code object, options) — for ever, hence also between any two `gc` events. -/
+/-- **Converts once**: along every schedule on which no code object dies while an equal-valued
+distinct one shares its entry (`SchedSafe`; in particular in every history whose distinct code objects
+have distinct values, for all schedules), the conversion runs at most once per (code object, options)
+— for ever, hence also between any two `gc` events.  The lock discipline this rests on (the re-check,
+the conversion and the store are inside the critical section, the first check and `instantiate` are
+not) is the one extracted from the source: `C10_lock_discipline_extracted`. -/
 theorem C10_once_partial (T : Code → Opts → Nat → Option Factory) (progs : List (List (Request Opts)))
-    (V : ValInj (allReqs progs)) (sched : List Label) (c : Code) (o : Opts) :
+    (sched : List Label) (hs : SchedSafe T (init progs) sched) (c : Code) (o : Opts) :
     xcount (run T (init progs) sched) c o ≤ 1 :=
-  ((Inv_reach T progs V sched).once c o).1
+  ((Inv_reach T progs sched hs).once c o).1
 
 /-- …and the one conversion that ran is the one every later request is served: as long as some live
 function uses the code object, the pair is in the cache or about to be stored by the lock holder. -/
 theorem C10_once_kept_partial (T : Code → Opts → Nat → Option Factory) (progs : List (List (Request Opts)))
-    (V : ValInj (allReqs progs)) (sched : List Label) (c : Code) (o : Opts)
+    (sched : List Label) (hs : SchedSafe T (init progs) sched) (c : Code) (o : Opts)
     (h : 0 < xcount (run T (init progs) sched) c o) (hl : live (run T (init progs) sched) c = true) :
     (table (run T (init progs) sched) c o).isSome = true ∨ Storing (run T (init progs) sched) c o := by
-  rcases ((Inv_reach T progs V sched).once c o).2 h with h | h | h
+  rcases ((Inv_reach T progs sched hs).once c o).2 h with h | h | h
   · exact Or.inl h
   · exact Or.inr h
   · rw [hl] at h; cases h
+
+/-- **The lock discipline of the model is the one of the source** (regenerated by the translator,
+`tools/extract_cachelock.py` → `Generated/CacheLock.lean`, on every run): in
+`PyToPy.transform_function` the first `has`/fetch and `instantiate` are outside, the re-check, its
+fetch, the conversion (`super().transform_function`, `factory.create`) and the store are lexically
+inside `with self._cache_lock`; the lock is an `RLock`, the outer dictionary a `WeakKeyDictionary` keyed
+by `entity.__code__`, the subkey is `ctx.options`, `has` is `get` + `in`, `__getitem__` is `get` +
+create-if-missing, `instantiate` receives the requesting function's globals, closure, defaults and
+kwdefaults.  If the conversion call (or the store, or the re-check) moves out of the critical section,
+or the lock is taken by explicit acquire/release, this ceases to compile. -/
+theorem C10_lock_discipline_extracted :
+    Malt.Gen.CacheLock.sites =
+      [("has", (Pc.has1 false : Pc Unit).locked), ("get", (Pc.get1 false : Pc Unit).locked),
+       ("has", (Pc.has1 true : Pc Unit).locked), ("get", (Pc.get1 true : Pc Unit).locked),
+       ("xform", (Pc.xform : Pc Unit).locked), ("create", (Pc.xform : Pc Unit).locked),
+       ("store", (Pc.st2 () 0 : Pc Unit).locked), ("inst", (Pc.inst () false : Pc Unit).locked)] ∧
+    Malt.Gen.CacheLock.lockKind = "threading.RLock()" ∧
+    Malt.Gen.CacheLock.outerKind = "weakref.WeakKeyDictionary()" ∧
+    Malt.Gen.CacheLock.keyExpr = "entity.__code__ | entity" ∧
+    Malt.Gen.CacheLock.subkeyExpr = "ctx.options" ∧
+    Malt.Gen.CacheLock.hasOps = ["outer.get", "in"] ∧
+    Malt.Gen.CacheLock.getitemOps = ["outer.get", "outer.set{}"] ∧
+    Malt.Gen.CacheLock.cachedFactoryExpr = "self._cache[fn][cache_subkey]" ∧
+    Malt.Gen.CacheLock.instantiateArgs =
+      [("globals_", "fn.__globals__"), ("closure", "fn.__closure__ or ()"), ("defaults", "fn.__defaults__"),
+       ("kwdefaults", "getattr(fn, '__kwdefaults__', None)")] := by
+  decide
 
 /- FULL STATEMENT (false of the pinned tree — `C10_no_error_counterexample`):
      ∀ T progs sched, ∀ e ∈ finished (run T (init progs) sched), e.2 = none →
@@ -121,16 +168,16 @@ theorem C10_once_kept_partial (T : Code → Opts → Nat → Option Factory) (pr
 distinct values a request raises only if its *own* conversion raises — never a `KeyError` from the
 cache (the entry a reader saw in `has` is still there when it fetches it), under every interleaving. -/
 theorem C10_error_only_partial (T : Code → Opts → Nat → Option Factory) (progs : List (List (Request Opts)))
-    (V : ValInj (allReqs progs)) (sched : List Label) :
+    (sched : List Label) (hs : SchedSafe T (init progs) sched) :
     ∀ e ∈ finished (run T (init progs) sched), e.2 = none → T e.1.code e.1.opts e.1.env.sig = none := by
   intro e he hnone
   obtain ⟨th, hth, hr⟩ := mem_finished he
-  exact (ErrInv_run V (Inv_init progs (mem_allReqs progs)) (ErrInv_init progs) sched).1 th hth e hr hnone
+  exact (ErrInv_run (Inv_init progs (mem_allReqs progs)) (ErrInv_init progs) sched hs).1 th hth e hr hnone
 
 /-- …so if every function of the history is convertible, no request ever fails. -/
 theorem C10_no_error_partial (T : Code → Opts → Nat → Option Factory) (progs : List (List (Request Opts)))
-    (V : ValInj (allReqs progs)) (hT : ∀ r ∈ allReqs progs, (T r.code r.opts r.env.sig).isSome = true)
-    (sched : List Label) :
+    (hT : ∀ r ∈ allReqs progs, (T r.code r.opts r.env.sig).isSome = true)
+    (sched : List Label) (hs : SchedSafe T (init progs) sched) :
     ∀ e ∈ finished (run T (init progs) sched), ∃ f, e.2 = some f := by
   intro e he
   cases h : e.2 with
@@ -139,30 +186,30 @@ theorem C10_no_error_partial (T : Code → Opts → Nat → Option Factory) (pro
     obtain ⟨th, hth, hr⟩ := mem_finished he
     have heP : e.1 ∈ allReqs progs := (G_reach T progs sched).resP th hth e hr
     have := hT e.1 heP
-    rw [C10_error_only_partial T progs V sched e he h] at this
+    rw [C10_error_only_partial T progs sched hs e he h] at this
     cases this
 
 /-- **The lock is never leaked**: whenever no thread is inside `transform_function`'s critical
 section — in particular after a conversion raised — the lock is free. -/
 theorem C10_lock_released_partial (T : Code → Opts → Nat → Option Factory) (progs : List (List (Request Opts)))
-    (V : ValInj (allReqs progs)) (sched : List Label)
+    (sched : List Label) (hs : SchedSafe T (init progs) sched)
     (h : ∀ th ∈ (run T (init progs) sched).threads, th.pc.locked = false) :
     (run T (init progs) sched).lock = none := by
   cases hl : (run T (init progs) sched).lock with
   | none => rfl
   | some tn =>
     obtain ⟨t, n⟩ := tn
-    obtain ⟨_, th, hth, hlk⟩ := (Inv_reach T progs V sched).lock1 t n hl
+    obtain ⟨_, th, hth, hlk⟩ := (Inv_reach T progs sched hs).lock1 t n hl
     rw [h th (List.mem_of_getElem? hth)] at hlk
     cases hlk
 
 /-- **Mutual exclusion** (the mechanism): at most one thread is inside `with self._cache_lock`, it is
 the owner of the lock, and every write to the dictionaries happens there. -/
 theorem C10_mutex_partial (T : Code → Opts → Nat → Option Factory) (progs : List (List (Request Opts)))
-    (V : ValInj (allReqs progs)) (sched : List Label) (t t' : Tid) (th th' : Thread Opts Factory)
+    (sched : List Label) (hs : SchedSafe T (init progs) sched) (t t' : Tid) (th th' : Thread Opts Factory)
     (h : (run T (init progs) sched).threads[t]? = some th) (hl : th.pc.locked = true)
     (h' : (run T (init progs) sched).threads[t']? = some th') (hl' : th'.pc.locked = true) : t = t' :=
-  holder_unique (Inv_reach T progs V sched) h hl h' hl'
+  holder_unique (Inv_reach T progs sched hs) h hl h' hl'
 
 /-- **No deadlock** (local form): in every reachable state in which some request is unfinished, some
 thread can take a step that strictly decreases the remaining `work` — the owner of the lock is never
@@ -170,20 +217,20 @@ blocked, and nobody is blocked when the lock is free.  (`work` = 18 per unfinish
 position of the request in flight; no step of any thread, and no `gc`, ever increases it:
 `step_work_le`.) -/
 theorem C10_progress_partial (T : Code → Opts → Nat → Option Factory) (progs : List (List (Request Opts)))
-    (V : ValInj (allReqs progs)) (sched : List Label)
+    (sched : List Label) (hs : SchedSafe T (init progs) sched)
     (h : ∃ th ∈ (run T (init progs) sched).threads, th.todo ≠ []) :
     ∃ t, work (step T (run T (init progs) sched) (.thr t)) < work (run T (init progs) sched) :=
-  progress (Inv_reach T progs V sched) h
+  progress (Inv_reach T progs sched hs) h
 
 /-- **No deadlock, no livelock** (global form): whatever happened so far (any schedule, fair or
 not), the execution can be continued — by at most `work` further thread steps — to a state in which
 every request of every thread has finished.  Since `work` never increases and every non-blocked step
 decreases it, every scheduler that keeps scheduling a thread that is not blocked gets there. -/
 theorem C10_can_complete_partial (T : Code → Opts → Nat → Option Factory) (progs : List (List (Request Opts)))
-    (V : ValInj (allReqs progs)) (sched : List Label) :
+    (sched : List Label) (hs : SchedSafe T (init progs) sched) :
     ∃ more : List Label, more.length ≤ work (run T (init progs) sched) ∧
       ∀ th ∈ (run T (init progs) (sched ++ more)).threads, th.todo = [] := by
-  obtain ⟨more, hlen, hfin⟩ := can_complete (T := T) V _ (Inv_reach T progs V sched) (Nat.le_refl _)
+  obtain ⟨more, hlen, hfin⟩ := can_complete (T := T) _ (Inv_reach T progs sched hs) (Nat.le_refl _)
   refine ⟨more, hlen, ?_⟩
   have : run T (init progs) (sched ++ more) = run T (run T (init progs) sched) more := by
     simp [run, List.foldl_append]
@@ -244,6 +291,51 @@ theorem C10_refines_partial (T : Code → Opts → Nat → Option Factory) (prog
   rw [abs_init] at hls
   exact ⟨ls, hls⟩
 
+/- FULL STATEMENT (false of the pinned tree — `C10_ideal_needs_sigCoherent`, `C10_ideal_needs_valInj`):
+     ∀ T progs sched, ∃ ts, Ideal.irun T (Ideal.iinit progs) ts = (abs (allReqs progs) (run T (init progs) sched)).threads -/
+
+/-- **Refinement to the abstract specification of the property** — no cache at all, "a map from
+(function identity incl. closure/globals/defaults binding, options) to a fresh conversion"
+(`Malt.Cache.Ideal`): for every history inside the fragment `ValInj ∧ SigCoherent` (the negations of
+the two known findings), for ALL schedules (induction over the schedule; any number of threads;
+`gc` of code objects and redefinition included), some sequence of atomic "answer this request by a
+fresh conversion of exactly this function" steps yields exactly the implementation's observable state
+(per thread: remaining requests and outcomes, a request counting as answered from its linearisation
+point on). -/
+theorem C10_refines_ideal_partial (T : Code → Opts → Nat → Option Factory) (progs : List (List (Request Opts)))
+    (V : ValInj (allReqs progs)) (hS : SigCoherent (allReqs progs)) (sched : List Label) :
+    ∃ ts : List Tid,
+      Ideal.irun T (Ideal.iinit progs) ts = (abs (allReqs progs) (run T (init progs) sched)).threads := by
+  obtain ⟨ls, hls⟩ := C10_refines_partial T progs V sched
+  refine ⟨ls.filterMap serveTid, ?_⟩
+  have h0 : TabOK T (allReqs progs) (Spec.sinit progs : Spec.SState Opts Factory) := by
+    constructor
+    · intro c o f hf; simp [Spec.sinit] at hf
+    · intro th hth r hr
+      simp only [Spec.sinit, List.mem_map] at hth
+      obtain ⟨p, hp, rfl⟩ := hth
+      exact mem_allReqs progs p hp r hr
+  have := srun_ideal (T := T) hS ls h0
+  rw [hls] at this
+  rw [this]; rfl
+
+/-- …in terms of outcomes: inside the fragment every finished request — whether it returned a
+function or raised — got exactly the outcome of a fresh conversion of that exact function object
+under those exact options (instantiated with its own environment). -/
+theorem C10_outcome_ideal_partial (T : Code → Opts → Nat → Option Factory) (progs : List (List (Request Opts)))
+    (V : ValInj (allReqs progs)) (hS : SigCoherent (allReqs progs)) (sched : List Label) :
+    ∀ e ∈ finished (run T (init progs) sched), e.2 = T e.1.code e.1.opts e.1.env.sig := by
+  intro e he
+  cases h : e.2 with
+  | none =>
+    exact (C10_error_only_partial T progs sched (C10_schedSafe_of_valInj T progs V sched) e he h).symm
+  | some f =>
+    obtain ⟨r0, hr0, hv, _, h1⟩ := C10_served T progs sched e he f h
+    obtain ⟨th, hth, hr⟩ := mem_finished he
+    have heP : e.1 ∈ allReqs progs := (G_reach T progs sched).resP th hth e hr
+    rw [hS r0 hr0 e.1 heP hv, V r0 hr0 e.1 heP hv] at h1
+    exact h1.symm
+
 private theorem aux_reach (T : Code → Opts → Nat → Option Factory) (progs : List (List (Request Opts)))
     (V : ValInj (allReqs progs)) (sched : List Label) :
     Inv (allReqs progs) (run T (init progs) sched) ∧ Inj (run T (init progs) sched) ∧
@@ -262,7 +354,7 @@ private theorem aux_reach (T : Code → Opts → Nat → Option Factory) (progs 
     | nil => intro s a b c d; exact ⟨a, b, c, d⟩
     | cons l ls ih =>
       intro s a b c d
-      exact ih _ (Inv_step V a l) (Inj_step (T := T) a b l) (Own_step c l) (ErrInv_step a d l)
+      exact ih _ (Inv_step a l (stepSafe_of_valInj V a l)) (Inj_step (T := T) a b l) (Own_step c l) (ErrInv_step a d l)
   exact gen sched _ (Inv_init progs (mem_allReqs progs)) h0 h1 (ErrInv_init progs)
 
 /-- **No aliasing, frame form**: a step of a thread changes what a lookup of `(c, o)` finds — for any
@@ -336,7 +428,8 @@ example : xcount (run exT (init exRace) exRaceSched) ⟨1, 7⟩ 0 = 1 := by deci
 example : ValInj (allReqs exRace) ∧ SigCoherent (allReqs exRace) := by decide
 /-- The hypotheses of the positive theorems are satisfiable by this non-trivial instance. -/
 example : ∀ e ∈ finished (run exT (init exRace) exRaceSched), ∃ f, e.2 = some f :=
-  C10_no_error_partial exT exRace (by decide) (by decide) exRaceSched
+  C10_no_error_partial exT exRace (by decide) exRaceSched
+    (C10_schedSafe_of_valInj exT exRace (by decide) exRaceSched)
 /-- …and the refinement theorem applies to it. -/
 example : ∃ ls : List Spec.SLabel,
     Spec.srun exT (Spec.sinit exRace) ls = abs (allReqs exRace) (run exT (init exRace) exRaceSched) :=
@@ -425,6 +518,45 @@ set_option maxRecDepth 8192 in
 example : (run exT (init exFail) (thr 0 5 ++ thr 1 3 ++ thr 0 20 ++ thr 1 20)).lock = none := by decide
 set_option maxRecDepth 8192 in
 example : xcount (run exT (init exFail) (thr 0 5 ++ thr 1 3 ++ thr 0 20 ++ thr 1 20)) ⟨3, 13⟩ 0 = 0 := by decide
+
+/-- The refinement to the cache-less specification FAILS without `SigCoherent` (known finding
+`C10-shared-code-namespace`): a history with `ValInj` in which an outcome is not the fresh conversion. -/
+theorem C10_ideal_needs_sigCoherent :
+    ¬ (∀ (progs : List (List (Request Nat))) (sched : List Label), ValInj (allReqs progs) →
+        ∀ e ∈ finished (run exT (init progs) sched), e.2 = exT e.1.code e.1.opts e.1.env.sig) := by
+  intro h
+  have := h exSig (thr 0 12 ++ thr 1 12) (by decide) (⟨⟨1, 7⟩, 0, ⟨2, 2⟩⟩, some 1070001) (by decide)
+  exact absurd this (by decide)
+
+/-- …and FAILS without `ValInj` (known finding `C10-equal-code-objects`): a history with `SigCoherent`
+in which an outcome is not the fresh conversion (it is the conversion of the *other* function's
+source).  So the theorem (`C10_refines_ideal_partial`) and the decidable classifier
+`ValInj ∧ SigCoherent` partition the histories: inside, every schedule refines the specification;
+for each hypothesis there is a history violating only it on which the refinement fails. -/
+theorem C10_ideal_needs_valInj :
+    ¬ (∀ (progs : List (List (Request Nat))) (sched : List Label), SigCoherent (allReqs progs) →
+        ∀ e ∈ finished (run exT (init progs) sched), e.2 = exT e.1.code e.1.opts e.1.env.sig) := by
+  intro h
+  have := h exKeyErr (thr 0 12 ++ thr 1 12) (by decide) (⟨⟨2, 7⟩, 0, ⟨2, 5⟩⟩, some 1070005) (by decide)
+  exact absurd this (by decide)
+
+example : ValInj (allReqs exSig) ∧ ¬ SigCoherent (allReqs exSig) := by decide
+example : SigCoherent (allReqs exKeyErr) ∧ ¬ ValInj (allReqs exKeyErr) := by decide
+
+/-- Redefinition with the SAME source (`exec` twice): object 1 is converted, dies, and only then is
+the equal-valued object 2 used.  `ValInj` fails (static), the dynamic hypothesis `SchedSafe` holds, so
+the once / no-error / lock theorems apply: the new definition is converted once, no stale hit. -/
+private def exRedefine : List (List (Request Nat)) := [[⟨⟨1, 7⟩, 0, ⟨1, 5⟩⟩], [⟨⟨2, 7⟩, 0, ⟨2, 5⟩⟩, ⟨⟨2, 7⟩, 0, ⟨2, 5⟩⟩]]
+private def exRedefineSched : List Label := thr 0 12 ++ [.gc ⟨1, 7⟩] ++ thr 1 24
+set_option maxRecDepth 8192 in
+example : ¬ ValInj (allReqs exRedefine) ∧ SchedSafe exT (init exRedefine) exRedefineSched := by decide
+set_option maxRecDepth 8192 in
+example : outs (run exT (init exRedefine) exRedefineSched) = [[some 1070005], [some 2070005, some 2070005]] := by decide
+example : xcount (run exT (init exRedefine) exRedefineSched) ⟨2, 7⟩ 0 ≤ 1 :=
+  C10_once_partial exT exRedefine exRedefineSched (by decide) ⟨2, 7⟩ 0
+/-- The schedules of the two counterexamples are exactly the unsafe ones. -/
+example : ¬ SchedSafe exT (init exEq) (thr 0 12 ++ thr 1 12 ++ [.gc ⟨1, 7⟩] ++ thr 1 12) := by decide
+example : ¬ SchedSafe exT (init exKeyErr) (thr 0 12 ++ thr 1 3 ++ [.gc ⟨1, 7⟩] ++ thr 1 4) := by decide
 
 end examples
 
